@@ -230,7 +230,7 @@ func (tr *tokenReader) skipFollowingWhitespace() {
 		case '\n':
 			tr.loc.incLine()
 			fallthrough
-		case ' ', '\r':
+		case ' ', '\t', '\r':
 			continue
 		}
 		tr.unreadByte()
